@@ -1,4 +1,4 @@
-\* C04 thorough (replay 3): 1 thread, <= 3 spans (verdict free), <= 3 frames, 1 task, nesting <= 3, all forms, incoming ids (pair, trace id alone, span id alone), async-fn spans; every transition replayed.
+\* C04 demonstration of finding F29 at model level: the model of the code as it is (CancelOwnIds = FALSE) must violate CancelCarriesOwnIds.
 SPECIFICATION SSpec
 CONSTANTS
     NThreads = 1
@@ -13,14 +13,13 @@ CONSTANTS
     MaxDepth = 3
     Panics = TRUE
     MaxSpans = 3
-    IncomingKinds <- MC_IncAll
+    IncomingKinds <- MC_None
     WithLazy = TRUE
     WithCancel = TRUE
     CancelOwnIds = FALSE
     CtxForms <- MC_Forms
-    Emit = TRUE
+    Emit = FALSE
 VIEW sview
-INVARIANTS InnermostWins NoTrace StackOK FrameIds AmbientIds OneTrace ParentIsEnclosing EventCarriesInnermost IdsDistinct
-PROPERTIES Revert
+INVARIANTS CancelCarriesOwnIds
 ACTION_CONSTRAINT SEmitReplay
 CHECK_DEADLOCK FALSE
